@@ -62,6 +62,37 @@ def _p2out(W, ix, n, m):
     return float(sum(_p2in(W, ix, i1, n) for i1 in range(m)))
 
 
+def _dterm(i, q, v):
+    return float(v) * (1 + int(i) + 3 * int(q)) + int(q)        # any fixed function will do: the theory leaves dterm uninterpreted
+
+
+def _fsum_in(C, i, q):
+    i = int(i)
+    if not 0 <= i <= NMAX:
+        _undefined('fsum_in mode')
+    return float(sum(_dterm(i, t + 1, C[i][t]) for t in range(_rng(q, 'fsum_in length'))))
+
+
+def _fsum_out(C, L, k):
+    return float(sum(_fsum_in(C, i, L[i]) for i in range(_rng(k, 'fsum_out length'))))
+
+
+def _uniq(c, n):
+    return sorted(set(int(c[s]) for s in range(_rng(n, 'unique length'))))
+
+
+def _unq(c, n):
+    u = _uniq(c, n)
+    return {k: (u[k] if k < len(u) else (u[-1] if u else 0) + 1 + k) for k in range(NMAX + 2)}
+
+
+def _upos(c, n, s):
+    n, s = _rng(n, 'unique length'), int(s)
+    if not 0 <= s < n:
+        _undefined('upos out of range')
+    return _uniq(c, n).index(int(c[s]))
+
+
 def _rsum(y, n):
     return float(sum(y[s] for s in range(_rng(n, 'rsum length'))))
 
@@ -80,7 +111,8 @@ def _rmean(y, n):
 
 
 INTERP_EXT = {'dotp': _dotp, 'asum': _asum, 'ccnt': _ccnt, 'csum': _csum, 'rsum': _rsum, 'cmean': _cmean, 'rmean': _rmean,
-              'p2in': _p2in, 'p2out': _p2out}
+              'p2in': _p2in, 'p2out': _p2out, 'dterm': _dterm, 'dzero': lambda v: 2 * float(v) + 1, 'fsum_in': _fsum_in, 'fsum_out': _fsum_out,
+              'unq': _unq, 'unqlen': lambda c, n: len(_uniq(c, n)), 'upos': _upos}
 
 
 def _wrap_sample(mod):
@@ -111,11 +143,28 @@ def _wrap_check(mod):
         return
     rare = {T.GROUPS['dotp'][1].get_id(), T.GROUPS['psum2'][1].get_id()}
 
+    varied = {T.GROUPS['unique'][1].get_id()}          # sortedness of np.unique: needs integer vectors with different entries
+
     def check_axiom(ax, rng, tries=400):
+        if ax.get_id() in varied:
+            keep = mod.sample
+            mod.sample = lambda sort, rng_: _random_ints(keep, sort, rng_)
+            try:
+                return orig(ax, rng, tries * 10)
+            finally:
+                mod.sample = keep
         return orig(ax, rng, tries * 10 if ax.get_id() in rare else tries)
 
     check_axiom._mx_anova = True
     mod.check_axiom = check_axiom
+
+
+def _random_ints(orig, sort, rng_):
+    if sort == X.IA:
+        return {k: int(rng_.integers(0, 3)) for k in range(NMAX + 1)}
+    if sort == X.RA:
+        return {k: float(rng_.integers(-3, 4)) for k in range(NMAX + 1)}
+    return orig(sort, rng_)
 
 
 def _self_test(mod, seed=1):
@@ -123,17 +172,12 @@ def _self_test(mod, seed=1):
     rng = np.random.default_rng(seed)
     orig = mod.sample
 
-    def sample(sort, rng_):
-        if sort == X.IA:
-            return {k: int(rng_.integers(0, 3)) for k in range(NMAX + 1)}
-        if sort == X.RA:
-            return {k: float(rng_.integers(-3, 4)) for k in range(NMAX + 1)}
-        return orig(sort, rng_)
+    sample = lambda sort, rng_: _random_ints(orig, sort, rng_)
     saved = dict(mod.INTERP)
     mod.INTERP.update(INTERP_EXT)
     mod.sample = sample
     try:
-        for g in ('dotp', 'slent', 'asum', 'csum', 'cmean', 'psum2'):
+        for g in ('dotp', 'slent', 'asum', 'csum', 'cmean', 'psum2', 'fsum', 'unique'):
             for n, ax in enumerate(T.GROUPS[g]):
                 exercised, bad = mod.check_axiom(ax, rng)
                 if bad is not None or exercised == 0:
